@@ -6,21 +6,620 @@ import IsoVerif.Model.CaratsSpec
 namespace IsoVerif.Carats
 open IsoVerif.Util IsoVerif.CaratsSpec
 
+/-! ## Lines of a text -/
+
+/-- every line followed by a line feed -/
+def flat : List Bytes → Bytes
+  | [] => []
+  | l :: ls => l ++ 10 :: flat ls
+
+def linesLen : List Bytes → Nat
+  | [] => 0
+  | l :: ls => l.length + 1 + linesLen ls
+
+theorem flat_length (ls : List Bytes) : (flat ls).length = linesLen ls := by
+  induction ls with
+  | nil => rfl
+  | cons l ls ih => simp [flat, linesLen, ih]; omega
+
+theorem flat_append (xs ys : List Bytes) : flat (xs ++ ys) = flat xs ++ flat ys := by
+  induction xs with
+  | nil => rfl
+  | cons l ls ih => simp [flat, ih]
+
+theorem linesLen_append (xs ys : List Bytes) : linesLen (xs ++ ys) = linesLen xs + linesLen ys := by
+  induction xs with
+  | nil => simp [linesLen]
+  | cons l ls ih => simp [linesLen, ih]; omega
+
+theorem splitLines_ne_nil (t : Bytes) : splitLines t ≠ [] := by
+  induction t with
+  | nil => simp [splitLines]
+  | cons b bs ih =>
+    unfold splitLines
+    split
+    · simp
+    · split <;> simp
+
+theorem flat_splitLines (t : Bytes) : flat (splitLines t) = t ++ [10] := by
+  induction t with
+  | nil => simp [splitLines, flat]
+  | cons b bs ih =>
+    unfold splitLines
+    split
+    · rename_i h
+      have : b = 10 := by simpa using h
+      simp [flat, ih, this]
+    · split
+      · rename_i h; exact absurd h (splitLines_ne_nil bs)
+      · rename_i l ls h
+        rw [h] at ih
+        simp [flat] at ih ⊢
+        exact ih
+
+theorem splitLines_no_lf (t : Bytes) : ∀ l ∈ splitLines t, (10 : UInt8) ∉ l := by
+  induction t with
+  | nil => simp [splitLines]
+  | cons b bs ih =>
+    unfold splitLines
+    split
+    · intro l hl
+      rcases List.mem_cons.mp hl with h | h
+      · simp [h]
+      · exact ih l h
+    · rename_i hb
+      split
+      · rename_i h; exact absurd h (splitLines_ne_nil bs)
+      · rename_i l ls h
+        rw [h] at ih
+        intro l' hl'
+        rcases List.mem_cons.mp hl' with h' | h'
+        · subst h'
+          have := ih l (by simp)
+          intro hm
+          rcases List.mem_cons.mp hm with h1 | h1
+          · simp [← h1] at hb
+          · exact this h1
+        · exact ih l' (by simp [h'])
+
+theorem count_lf_flat (ls : List Bytes) (h : ∀ l ∈ ls, (10 : UInt8) ∉ l) :
+    ((flat ls).filter (· == 10)).length = ls.length := by
+  induction ls with
+  | nil => rfl
+  | cons l ls ih =>
+    have h1 : l.filter (· == 10) = [] := by
+      rw [List.filter_eq_nil_iff]
+      intro a ha
+      have := h l (by simp)
+      intro hh
+      have : a = 10 := by simpa using hh
+      subst this; contradiction
+    simp [flat, List.filter_append, h1]
+    exact ih (fun l hl => h l (by simp [hl]))
+
+
+theorem isBoundary_sub (text L A B : Bytes) (p : Nat)
+    (hT : text ++ [10] = A ++ (L ++ 10 :: B)) (hb : isBoundary text p = true) (hp : p ≤ text.length)
+    (h1 : A.length ≤ p) (h2 : p ≤ A.length + L.length) : isBoundary L (p - A.length) = true := by
+  unfold isBoundary
+  by_cases hq0 : p - A.length = 0
+  · simp [hq0]
+  by_cases hq : p - A.length = L.length
+  · simp [hq]
+  · have hlen := congrArg List.length hT
+    simp only [List.length_append, List.length_cons, List.length_nil] at hlen
+    have hlt : p < text.length := by omega
+    have e1 : text[p]? = (text ++ [10])[p]? := (List.getElem?_append_left hlt).symm
+    have hlt2 : p - A.length < L.length := by omega
+    have e2 : (A ++ (L ++ 10 :: B))[p]? = L[p - A.length]? := by
+      rw [List.getElem?_append_right h1, List.getElem?_append_left hlt2]
+    rw [hT, e2] at e1
+    unfold isBoundary at hb
+    have hne0 : (p == 0) = false := by simp; omega
+    have hne : (p == text.length) = false := by simp; omega
+    rw [hne0, hne, e1] at hb
+    have hne0' : (p - A.length == 0) = false := by simp; omega
+    have hne' : (p - A.length == L.length) = false := by simp; omega
+    rw [hne0', hne']
+    exact hb
+
+theorem rowOf_sub (text L A B : Bytes) (s n : Nat)
+    (hT : text ++ [10] = A ++ (L ++ 10 :: B)) (hs : s ≤ text.length)
+    (hA : (A.filter (· == 10)).length = n) (hL : (10 : UInt8) ∉ L)
+    (h1 : A.length ≤ s) (h2 : s ≤ A.length + L.length) : rowOf text s = n + 1 := by
+  unfold rowOf
+  have e1 : text.take s = (text ++ [10]).take s := (List.take_append_of_le_length hs).symm
+  have h0 : s - A.length - L.length = 0 := by omega
+  have hL' : (L.take (s - A.length)).filter (· == 10) = [] := by
+    rw [List.filter_eq_nil_iff]
+    intro a ha hh
+    have : a = 10 := by simpa using hh
+    subst this
+    exact hL (List.mem_of_mem_take ha)
+  rw [e1, hT, List.take_append, List.take_of_length_le h1, List.take_append, h0, List.take_zero,
+    List.append_nil, List.filter_append, hL', List.append_nil, hA]
+  omega
+
+
+/-! ## Caret line, one loop iteration -/
+
+theorem charCount_cons (b : UInt8) (bs : Bytes) :
+    charCount (b :: bs) = if isLead b then charCount bs + 1 else charCount bs := by
+  unfold charCount
+  rw [List.filter_cons]
+  split <;> simp
+
+theorem caretCells_append (s e sol j : Nat) (X Y : Bytes) :
+    caretCells s e sol j (X ++ Y) = caretCells s e sol j X ++ caretCells s e sol (j + X.length) Y := by
+  induction X generalizing j with
+  | nil => simp [caretCells]
+  | cons b bs ih =>
+    have h : j + (bs.length + 1) = j + 1 + bs.length := by omega
+    simp only [List.cons_append, caretCells, List.length_cons, ih, h]
+    split <;> simp
+
+theorem caretCells_sp (s e sol j : Nat) (X : Bytes)
+    (h : ∀ i, i < X.length → ¬ (s ≤ sol + j + i ∧ sol + j + i < e)) :
+    caretCells s e sol j X = List.replicate (charCount X) sp := by
+  induction X generalizing j with
+  | nil => simp [caretCells, charCount]
+  | cons b bs ih =>
+    have h0 := h 0 (by simp)
+    have ht : ∀ i, i < bs.length → ¬ (s ≤ sol + (j + 1) + i ∧ sol + (j + 1) + i < e) := by
+      intro i hi
+      have := h (i + 1) (by simp; omega)
+      omega
+    rw [caretCells, charCount_cons, ih (j + 1) ht]
+    have h0' : ¬ (s ≤ sol + j ∧ sol + j < e) := by omega
+    split
+    · simp [List.replicate_succ]
+    · rfl
+
+theorem caretCells_caret (s e sol j : Nat) (X : Bytes)
+    (h : ∀ i, i < X.length → (s ≤ sol + j + i ∧ sol + j + i < e)) :
+    caretCells s e sol j X = List.replicate (charCount X) caret := by
+  induction X generalizing j with
+  | nil => simp [caretCells, charCount]
+  | cons b bs ih =>
+    have h0 := h 0 (by simp)
+    have ht : ∀ i, i < bs.length → (s ≤ sol + (j + 1) + i ∧ sol + (j + 1) + i < e) := by
+      intro i hi
+      have := h (i + 1) (by simp; omega)
+      omega
+    rw [caretCells, charCount_cons, ih (j + 1) ht]
+    have h0' : (s ≤ sol + j ∧ sol + j < e) := by omega
+    split
+    · simp [List.replicate_succ]
+    · rfl
+
+theorem carets_eq (s e sol sc ec : Nat) (L : Bytes) (hsc : sc = s - sol)
+    (hec : ec = min (e - sol) L.length) (h1 : sc ≤ L.length) (h2 : sol ≤ e) (hle : sc ≤ ec) :
+    List.replicate (charCount (L.take sc)) sp ++
+      List.replicate (charCount ((L.drop sc).take (ec - sc))) caret ++
+      List.replicate (charCount (L.drop ec)) sp = caretCells s e sol 0 L := by
+  have hd : L.drop ec = (L.drop sc).drop (ec - sc) := by
+    rw [List.drop_drop]; congr 1; omega
+  have hL : L = L.take sc ++ ((L.drop sc).take (ec - sc) ++ (L.drop sc).drop (ec - sc)) := by
+    rw [List.take_append_drop, List.take_append_drop]
+  conv => rhs; rw [hL]
+  rw [caretCells_append, caretCells_append, hd]
+  have l1 : (L.take sc).length = sc := by simp; omega
+  have l2 : ((L.drop sc).take (ec - sc)).length = ec - sc := by simp; omega
+  have l3 : ((L.drop sc).drop (ec - sc)).length = L.length - ec := by simp; omega
+  rw [l1, l2]
+  rw [caretCells_sp, caretCells_caret, caretCells_sp, List.append_assoc]
+  · intro i hi
+    rw [l3] at hi
+    omega
+  · intro i hi
+    rw [l2] at hi
+    omega
+  · intro i hi
+    rw [l1] at hi
+    omega
+
+
+def emit (s e sol : Nat) (st : St) (line : Bytes) : St :=
+    let lineLen := line.length
+    let sc := s - sol
+    let ec := min (e - sol) lineLen
+    if sc > lineLen || !(isBoundary line sc) then { st with panicked := some "slice-prefix" }
+    else if ec < sc || !(isBoundary line ec) then { st with panicked := some "slice-highlight" }
+    else
+      let pre := line.take sc
+      let hi := (line.drop sc).take (ec - sc)
+      let suf := line.drop ec
+      let st := { st with out := st.out.push line }
+      if sc != lineLen && ec != 0 then
+        let first := match st.first with
+          | none => some st.out.size
+          | some f => some (min f st.out.size)
+        let last := st.out.size + 1
+        let carats := List.replicate (charCount pre) sp ++ List.replicate (charCount hi) caret ++
+          List.replicate (charCount suf) sp
+        { st with first := first, last := last, out := st.out.push carats }
+      else st
+
+theorem stepLine_before_after (s e idx : Nat) (st : St) (L : Bytes) (hnp : st.panicked = none)
+    (hst : st.state = .before) (h1 : st.cur + L.length + 1 > e) (h2 : ¬ s < st.cur) :
+    stepLine s e st idx L = emit s e st.cur { st with
+      cur := st.cur + L.length + 1, row := some (idx + 1, s - st.cur + 1), state := .after } L := by
+  simp only [stepLine, hnp, hst, h1, h2, emit]
+  rfl
+
+
+theorem stepLine_before_inside (s e idx : Nat) (st : St) (L : Bytes) (hnp : st.panicked = none)
+    (hst : st.state = .before) (h1 : ¬ st.cur + L.length + 1 > e) (h1' : st.cur + L.length + 1 > s)
+    (h2 : ¬ s < st.cur) :
+    stepLine s e st idx L = emit s e st.cur { st with
+      cur := st.cur + L.length + 1, row := some (idx + 1, s - st.cur + 1), state := .inside } L := by
+  simp only [stepLine, hnp, hst, h1, h1', h2, emit]
+  rfl
+
+theorem stepLine_before_skip (s e idx : Nat) (st : St) (L : Bytes) (hnp : st.panicked = none)
+    (hst : st.state = .before) (h1 : ¬ st.cur + L.length + 1 > e) (h1' : ¬ st.cur + L.length + 1 > s) :
+    stepLine s e st idx L = { st with cur := st.cur + L.length + 1, out := st.out.push L } := by
+  simp only [stepLine, hnp, hst, h1, h1']
+  rfl
+
+theorem stepLine_inside_after (s e idx : Nat) (st : St) (L : Bytes) (hnp : st.panicked = none)
+    (hst : st.state = .inside) (h1 : st.cur + L.length + 1 > e) :
+    stepLine s e st idx L = emit s e st.cur { st with
+      cur := st.cur + L.length + 1, state := .after } L := by
+  simp only [stepLine, hnp, hst, h1, emit]
+  rfl
+
+theorem stepLine_inside_stay (s e idx : Nat) (st : St) (L : Bytes) (hnp : st.panicked = none)
+    (hst : st.state = .inside) (h1 : ¬ st.cur + L.length + 1 > e) :
+    stepLine s e st idx L = emit s e st.cur { st with cur := st.cur + L.length + 1 } L := by
+  simp only [stepLine, hnp, hst, h1, emit]
+  rfl
+
+theorem stepLine_after (s e idx : Nat) (st : St) (L : Bytes) (hnp : st.panicked = none)
+    (hst : st.state = .after) :
+    stepLine s e st idx L = { st with cur := st.cur + L.length + 1, out := st.out.push L } := by
+  simp only [stepLine, hnp, hst]
+  rfl
+
+theorem emit_ok (s e sol : Nat) (st : St) (L : Bytes)
+    (hsc : s - sol ≤ L.length) (hb1 : isBoundary L (s - sol) = true)
+    (hle : s - sol ≤ min (e - sol) L.length) (hb2 : isBoundary L (min (e - sol) L.length) = true)
+    (h2 : sol ≤ e) :
+    emit s e sol st L =
+      if underlined s e sol L.length then
+        { st with
+          first := (match st.first with
+            | none => some (st.out.size + 1)
+            | some f => some (min f (st.out.size + 1))),
+          last := st.out.size + 2,
+          out := (st.out.push L).push (caretCells s e sol 0 L) }
+      else { st with out := st.out.push L } := by
+  have hc := carets_eq s e sol (s - sol) (min (e - sol) L.length) L rfl rfl hsc h2 hle
+  have h1 : ¬ (s - sol > L.length) := by omega
+  have h3 : ¬ (min (e - sol) L.length < s - sol) := by omega
+  have hu : (s - sol != L.length && min (e - sol) L.length != 0) = underlined s e sol L.length := by
+    rw [Bool.eq_iff_iff]
+    simp only [underlined, Bool.and_eq_true, bne_iff_ne, ne_eq, decide_eq_true_eq]
+    omega
+  simp only [emit, h1, hb1, h3, hb2, hc, hu, Array.size_push]
+  simp
+
+
+def LineOK (text : Bytes) (s e sol idx : Nat) (L : Bytes) : Prop :=
+  (∀ p, (p = s ∨ p = e) → sol ≤ p → p ≤ sol + L.length → isBoundary L (p - sol) = true) ∧
+  (sol ≤ s → s ≤ sol + L.length → rowOf text s = idx + 1) ∧
+  (s < sol → sol ≤ e → isBoundary L 0 = true)
+
+structure Inv (text : Bytes) (s e sol : Nat) (st : St) : Prop where
+  np : st.panicked = none
+  cur : st.cur = sol
+  hb : st.state = .before → sol ≤ s
+  hi : st.state = .inside → s < sol ∧ sol ≤ e
+  ha : st.state = .after → e < sol
+  row : st.state ≠ .before → ∃ c, st.row = some (rowOf text s, c)
+  lastle : st.last ≤ st.out.size
+  first : ∀ f, st.first = some f → f ≤ st.last
+
+def specStep (s e sol : Nat) (L : Bytes) (st : St) : Array Bytes × Option Nat × Nat :=
+  if (touched s e sol L.length && underlined s e sol L.length) = true then
+    ((st.out.push L).push (caretCells s e sol 0 L),
+      (match st.first with | none => some (st.out.push L).size | some f => some f),
+      (st.out.push L).size + 1)
+  else (st.out.push L, st.first, st.last)
+
+theorem emit_step (s e sol : Nat) (st : St) (L : Bytes)
+    (hsc : s - sol ≤ L.length) (hb1 : isBoundary L (s - sol) = true)
+    (hle : s - sol ≤ min (e - sol) L.length) (hb2 : isBoundary L (min (e - sol) L.length) = true)
+    (h2 : sol ≤ e) (ht : touched s e sol L.length = true)
+    (hlast : st.last ≤ st.out.size) (hfirst : ∀ f, st.first = some f → f ≤ st.last) :
+    (emit s e sol st L).panicked = st.panicked ∧ (emit s e sol st L).cur = st.cur ∧
+    (emit s e sol st L).state = st.state ∧ (emit s e sol st L).row = st.row ∧
+    (emit s e sol st L).last ≤ (emit s e sol st L).out.size ∧
+    (∀ f, (emit s e sol st L).first = some f → f ≤ (emit s e sol st L).last) ∧
+    ((emit s e sol st L).out, (emit s e sol st L).first, (emit s e sol st L).last) =
+      specStep s e sol L st := by
+  rw [emit_ok s e sol st L hsc hb1 hle hb2 h2]
+  unfold specStep
+  rw [ht, Bool.true_and]
+  by_cases hu : underlined s e sol L.length = true
+  · rw [hu]
+    simp only [↓reduceIte]
+    refine ⟨by trivial, by trivial, by trivial, by trivial, ?_, ?_, ?_⟩
+    · simp
+    · cases hf : st.first with
+      | none => simp
+      | some f => simp; omega
+    · cases hf : st.first with
+      | none => simp
+      | some f =>
+        have := hfirst f hf
+        simp; omega
+  · have hu' : underlined s e sol L.length = false := by simpa using hu
+    rw [hu']
+    simp only [Bool.false_eq_true, ↓reduceIte]
+    refine ⟨by trivial, by trivial, by trivial, by trivial, ?_, ?_, ?_⟩
+    · simp; omega
+    · simpa using hfirst
+    · simp
+
+
+theorem boundary_min (s e sol : Nat) (L : Bytes)
+    (hbd : ∀ p, (p = s ∨ p = e) → sol ≤ p → p ≤ sol + L.length → isBoundary L (p - sol) = true)
+    (h : sol ≤ e) : isBoundary L (min (e - sol) L.length) = true := by
+  by_cases hc : e - sol ≤ L.length
+  · rw [Nat.min_eq_left hc]
+    exact hbd e (Or.inr rfl) h (by omega)
+  · rw [Nat.min_eq_right (by omega)]
+    simp [isBoundary]
+
+theorem step_ok (text : Bytes) (s e sol idx : Nat) (st : St) (L : Bytes) (hse : s < e)
+    (inv : Inv text s e sol st) (ok : LineOK text s e sol idx L) :
+    Inv text s e (sol + L.length + 1) (stepLine s e st idx L) ∧
+    ((stepLine s e st idx L).out, (stepLine s e st idx L).first, (stepLine s e st idx L).last) =
+      specStep s e sol L st := by
+  obtain ⟨hnp, hcur, hb, hi, ha, hrow, hlast, hfirst⟩ := inv
+  obtain ⟨hbd, hrw, hz⟩ := ok
+  subst hcur
+  cases hst : st.state with
+  | before =>
+    have hle := hb hst
+    by_cases h1 : st.cur + L.length + 1 > e
+    · rw [stepLine_before_after s e idx st L hnp hst h1 (by omega)]
+      have ht : touched s e st.cur L.length = true := by simp [touched]; omega
+      obtain ⟨e1, e2, e3, e4, e5, e6, e7⟩ := emit_step s e st.cur { st with
+        cur := st.cur + L.length + 1, row := some (idx + 1, s - st.cur + 1), state := .after } L
+        (by omega) (hbd s (Or.inl rfl) hle (by omega)) (by omega)
+        (boundary_min s e st.cur L hbd (by omega)) (by omega) ht hlast hfirst
+      refine ⟨⟨?_, ?_, ?_, ?_, ?_, ?_, e5, e6⟩, ?_⟩
+      · rw [e1]; exact hnp
+      · rw [e2]
+      · rw [e3]; intro h; cases h
+      · rw [e3]; intro h; cases h
+      · rw [e3]; intro _; omega
+      · rw [e4]; intro _; exact ⟨_, by rw [hrw hle (by omega)]⟩
+      · rw [e7]; rfl
+    · by_cases h1' : st.cur + L.length + 1 > s
+      · rw [stepLine_before_inside s e idx st L hnp hst h1 h1' (by omega)]
+        have ht : touched s e st.cur L.length = true := by simp [touched]; omega
+        obtain ⟨e1, e2, e3, e4, e5, e6, e7⟩ := emit_step s e st.cur { st with
+          cur := st.cur + L.length + 1, row := some (idx + 1, s - st.cur + 1), state := .inside } L
+          (by omega) (hbd s (Or.inl rfl) hle (by omega)) (by omega)
+          (boundary_min s e st.cur L hbd (by omega)) (by omega) ht hlast hfirst
+        refine ⟨⟨?_, ?_, ?_, ?_, ?_, ?_, e5, e6⟩, ?_⟩
+        · rw [e1]; exact hnp
+        · rw [e2]
+        · rw [e3]; intro h; cases h
+        · rw [e3]; intro _; omega
+        · rw [e3]; intro h; cases h
+        · rw [e4]; intro _; exact ⟨_, by rw [hrw hle (by omega)]⟩
+        · rw [e7]; rfl
+      · rw [stepLine_before_skip s e idx st L hnp hst h1 h1']
+        have ht : touched s e st.cur L.length = false := by simp [touched]; omega
+        refine ⟨⟨hnp, rfl, ?_, ?_, ?_, ?_, ?_, hfirst⟩, ?_⟩
+        · intro _; show st.cur + L.length + 1 ≤ s; omega
+        · intro h; exact absurd (hst ▸ h) (by decide)
+        · intro h; exact absurd (hst ▸ h) (by decide)
+        · intro h; exact absurd hst h
+        · show st.last ≤ (st.out.push L).size; simp; omega
+        · simp [specStep, ht]
+  | inside =>
+    obtain ⟨hi1, hi2⟩ := hi hst
+    have ht : touched s e st.cur L.length = true := by simp [touched]; omega
+    have hs0 : s - st.cur = 0 := by omega
+    have hrow' := hrow (by rw [hst]; decide)
+    by_cases h1 : st.cur + L.length + 1 > e
+    · rw [stepLine_inside_after s e idx st L hnp hst h1]
+      obtain ⟨e1, e2, e3, e4, e5, e6, e7⟩ := emit_step s e st.cur { st with
+        cur := st.cur + L.length + 1, state := .after } L
+        (by omega) (by rw [hs0]; exact hz hi1 hi2) (by omega)
+        (boundary_min s e st.cur L hbd (by omega)) (by omega) ht hlast hfirst
+      refine ⟨⟨?_, ?_, ?_, ?_, ?_, ?_, e5, e6⟩, ?_⟩
+      · rw [e1]; exact hnp
+      · rw [e2]
+      · rw [e3]; intro h; cases h
+      · rw [e3]; intro h; cases h
+      · rw [e3]; intro _; omega
+      · rw [e4]; intro _; exact hrow'
+      · rw [e7]; rfl
+    · rw [stepLine_inside_stay s e idx st L hnp hst h1]
+      obtain ⟨e1, e2, e3, e4, e5, e6, e7⟩ := emit_step s e st.cur { st with
+        cur := st.cur + L.length + 1 } L
+        (by omega) (by rw [hs0]; exact hz hi1 hi2) (by omega)
+        (boundary_min s e st.cur L hbd (by omega)) (by omega) ht hlast hfirst
+      refine ⟨⟨?_, ?_, ?_, ?_, ?_, ?_, e5, e6⟩, ?_⟩
+      · rw [e1]; exact hnp
+      · rw [e2]
+      · rw [e3]; intro h; exact absurd (hst ▸ h) (by decide)
+      · rw [e3]; intro _; omega
+      · rw [e3]; intro h; exact absurd (hst ▸ h) (by decide)
+      · rw [e4]; intro _; exact hrow'
+      · rw [e7]; rfl
+  | after =>
+    have ha' := ha hst
+    have hrow' := hrow (by rw [hst]; decide)
+    rw [stepLine_after s e idx st L hnp hst]
+    have ht : touched s e st.cur L.length = false := by simp [touched]; omega
+    refine ⟨⟨hnp, rfl, ?_, ?_, ?_, ?_, ?_, hfirst⟩, ?_⟩
+    · intro h; exact absurd (hst ▸ h) (by decide)
+    · intro h; exact absurd (hst ▸ h) (by decide)
+    · intro _; show e < st.cur + L.length + 1; omega
+    · intro _; exact hrow'
+    · show st.last ≤ (st.out.push L).size; simp; omega
+    · simp [specStep, ht]
+
+
+/-! ## The whole loop -/
+
+def LinesOK (text : Bytes) (s e : Nat) : Nat → Nat → List Bytes → Prop
+  | _, _, [] => True
+  | sol, idx, L :: rest =>
+    LineOK text s e sol idx L ∧ LinesOK text s e (sol + L.length + 1) (idx + 1) rest
+
+theorem lineOK_of_split (text : Bytes) (s e : Nat) (pre post : List Bytes) (L : Bytes)
+    (hs : s ≤ text.length) (he : e ≤ text.length)
+    (hbs : isBoundary text s = true) (hbe : isBoundary text e = true)
+    (h : splitLines text = pre ++ L :: post) :
+    LineOK text s e (linesLen pre) pre.length L := by
+  have hT : text ++ [10] = flat pre ++ (L ++ 10 :: flat post) := by
+    rw [← flat_splitLines, h, flat_append]; rfl
+  have hno := splitLines_no_lf text
+  rw [h] at hno
+  refine ⟨?_, ?_, ?_⟩
+  · intro p hp h1 h2
+    rw [← flat_length] at h1 h2 ⊢
+    rcases hp with rfl | rfl
+    · exact isBoundary_sub text L _ _ _ hT hbs hs h1 h2
+    · exact isBoundary_sub text L _ _ _ hT hbe he h1 h2
+  · intro h1 h2
+    rw [← flat_length] at h1 h2
+    refine rowOf_sub text L (flat pre) (flat post) s pre.length hT hs ?_ ?_ h1 h2
+    · exact count_lf_flat pre (fun l hl => hno l (by simp [hl]))
+    · exact hno L (by simp)
+  · intro _ _
+    simp [isBoundary]
+
+theorem linesOK_of_split (text : Bytes) (s e : Nat)
+    (hs : s ≤ text.length) (he : e ≤ text.length)
+    (hbs : isBoundary text s = true) (hbe : isBoundary text e = true) :
+    ∀ (rest pre : List Bytes), splitLines text = pre ++ rest →
+      LinesOK text s e (linesLen pre) pre.length rest := by
+  intro rest
+  induction rest with
+  | nil => intro _ _; trivial
+  | cons L rest ih =>
+    intro pre h
+    refine ⟨lineOK_of_split text s e pre rest L hs he hbs hbe h, ?_⟩
+    have := ih (pre ++ [L]) (by simp [h])
+    have e1 : linesLen (pre ++ [L]) = linesLen pre + L.length + 1 := by
+      rw [linesLen_append]; simp [linesLen]; omega
+    rw [e1, List.length_append] at this
+    exact this
+
+theorem build_cons (s e sol : Nat) (L : Bytes) (rest : List Bytes) (st : St) :
+    build s e sol (L :: rest) st.out st.first st.last =
+      build s e (sol + L.length + 1) rest (specStep s e sol L st).1 (specStep s e sol L st).2.1
+        (specStep s e sol L st).2.2 := by
+  unfold specStep
+  conv => lhs; unfold build
+  split <;> rfl
+
+theorem fold_ok (text : Bytes) (s e : Nat) (hse : s < e) :
+    ∀ (rest : List Bytes) (sol idx : Nat) (st : St), Inv text s e sol st →
+      LinesOK text s e sol idx rest →
+      Inv text s e (sol + linesLen rest) (foldLines s e st idx rest) ∧
+      build s e sol rest st.out st.first st.last =
+        ((foldLines s e st idx rest).out, (foldLines s e st idx rest).first,
+          (foldLines s e st idx rest).last) := by
+  intro rest
+  induction rest with
+  | nil =>
+    intro sol idx st inv _
+    exact ⟨inv, rfl⟩
+  | cons L rest ih =>
+    intro sol idx st inv ok
+    obtain ⟨ok1, ok2⟩ := ok
+    obtain ⟨inv1, heq⟩ := step_ok text s e sol idx st L hse inv ok1
+    obtain ⟨inv2, hb⟩ := ih _ _ _ inv1 ok2
+    have e1 : sol + linesLen (L :: rest) = sol + L.length + 1 + linesLen rest := by
+      simp [linesLen]; omega
+    rw [e1, foldLines, build_cons, ← heq]
+    exact ⟨inv2, hb⟩
+
+theorem linesLen_splitLines (text : Bytes) : linesLen (splitLines text) = text.length + 1 := by
+  rw [← flat_length, flat_splitLines]; simp
+
+theorem inv_init (text : Bytes) (s e : Nat) : Inv text s e 0 {} := by
+  refine ⟨rfl, rfl, ?_, ?_, ?_, ?_, ?_, ?_⟩
+  · intro _; omega
+  · intro h; cases h
+  · intro h; cases h
+  · intro h; exact absurd rfl h
+  · show 0 ≤ _; omega
+  · intro f h; cases h
+
+/-! ## MAIN -/
+
 theorem render_eq_spec (text : Bytes) (o a b buffer : Nat)
     (hgood : goodSpan text (o + a) (o + b) = true) :
     observe (render text o a b buffer) = some (specRender text (o + a) (o + b) buffer) := by
-  sorry
+  have hg := hgood
+  simp only [goodSpan, Bool.and_eq_true, decide_eq_true_eq] at hg
+  obtain ⟨⟨⟨hse, hel⟩, hbs⟩, hbe⟩ := hg
+  have hab : (a == b) = false := by simp; omega
+  have hlines := linesOK_of_split text (o + a) (o + b) (by omega) hel hbs hbe (splitLines text) [] rfl
+  obtain ⟨inv, hb⟩ := fold_ok text (o + a) (o + b) hse (splitLines text) 0 0 {} (inv_init _ _ _) hlines
+  rw [linesLen_splitLines] at inv
+  generalize hst' : foldLines (o + a) (o + b) {} 0 (splitLines text) = st' at inv hb
+  have hb' : build (o + a) (o + b) 0 (splitLines text) #[] none 0 =
+      (st'.out, st'.first, st'.last) := hb
+  have hnb : st'.state ≠ .before := fun h => by have := inv.hb h; omega
+  obtain ⟨c, hrow⟩ := inv.row hnb
+  have hs : o + a ≤ text.length := by omega
+  have hnp := inv.np
+  unfold render specRender
+  simp only [hab, hst', hb', hnp, hrow, hs]
+  cases hf : st'.first with
+  | none => simp [observe]
+  | some f =>
+    have h1 := inv.first f hf
+    have h2 := inv.lastle
+    have h3 : ¬ (f - (buffer + 1) > min (st'.last + buffer) st'.out.size) := by omega
+    simp [h3, observe]
 
 theorem caretCells_length (s e sol j : Nat) (L : Bytes) :
     (caretCells s e sol j L).length = charCount L := by
-  sorry
+  induction L generalizing j with
+  | nil => simp [caretCells, charCount]
+  | cons b bs ih =>
+    rw [charCount_cons, caretCells]
+    split <;> simp [ih]
 
-/-- Number of carets = number of characters of the line whose first byte lies in the span. -/
 theorem caretCells_carets (s e sol j : Nat) (L : Bytes) :
     ((caretCells s e sol j L).filter (· == caret)).length =
       (((List.range L.length).filter fun i =>
           (match L[i]? with | some b => isLead b | none => false) &&
           decide (s ≤ sol + j + i) && decide (sol + j + i < e))).length := by
-  sorry
+  induction L generalizing j with
+  | nil => simp [caretCells]
+  | cons b bs ih =>
+    rw [List.length_cons, List.range_succ_eq_map, List.filter_cons, List.filter_map, caretCells]
+    have htail : (List.filter ((fun i =>
+          (match (b :: bs)[i]? with | some b => isLead b | none => false) &&
+          decide (s ≤ sol + j + i) && decide (sol + j + i < e)) ∘ Nat.succ) (List.range bs.length))
+        = (List.range bs.length).filter fun i =>
+          (match bs[i]? with | some b => isLead b | none => false) &&
+          decide (s ≤ sol + (j+1) + i) && decide (sol + (j+1) + i < e) := by
+      apply List.filter_congr
+      intro i _
+      simp only [Function.comp, Nat.succ_eq_add_one, List.getElem?_cons_succ]
+      have h1 : sol + j + (i + 1) = sol + (j + 1) + i := by omega
+      rw [h1]
+    rw [htail]
+    have hsp : (sp == caret) = false := by decide
+    by_cases hl : isLead b = true
+    · by_cases hc : s ≤ sol + j ∧ sol + j < e
+      · simp [hl, hc, ih]
+      · simp [hl, hc, ih, hsp]
+    · simp [hl, ih]
 
 end IsoVerif.Carats
